@@ -742,7 +742,7 @@ pub fn run_c14(ctx: &Ctx, st: &mut Local) {
                     format!("two runs of the default schedule of {:?} hit different scheduling points ({} vs {})", bodies, ca.len(), cb.len()), &[]));
                 continue;
             }
-            ctx.begin(name, i, 600_000);
+            ctx.begin(name, i, 7_200_000);
             let mut ex = Explorer { s, inp: &inp, bodies: bodies.clone(), expected, bound, private_copies: private, executions: 0, points_total: 0, failures: Vec::new(), max_exec: if ctx.quick() { 8_000 } else { 80_000 }, capped: false };
             ex.explore(vec![]);
             ctx.end();
